@@ -406,7 +406,8 @@ def execute (fuel : Nat) (ps : List Policy) (r : Run) : Option (PR × Run) :=
   match executeStack fuel 0 ps r with
   | none => none
   | some (res, r) =>
-    let r := if res.successAll then r.emit "ex.onSuccess" 0 else r.emit "ex.onFailure" 0
-    some (res, r.emit "ex.onDone" 0)
+    -- the completion events carry the result and error the caller receives (`ExecutionDoneEvent.Result` / `.Error`)
+    let r := if res.successAll then r.emitSeen "ex.onSuccess" 0 res.outcome else r.emitSeen "ex.onFailure" 0 res.outcome
+    some (res, r.emitSeen "ex.onDone" 0 res.outcome)
 
 end Failsafe.Exec
